@@ -16,6 +16,8 @@ type Table struct {
 	Name   string
 	Header []string
 	Rows   [][]string
+	// Raw, when non-nil, replaces the rendered CSV (byte-level member faults).
+	Raw []byte
 }
 
 func (tb *Table) Col(name string) int {
@@ -28,7 +30,7 @@ func (tb *Table) Col(name string) int {
 }
 
 func (tb *Table) Clone() *Table {
-	c := &Table{Name: tb.Name, Header: append([]string(nil), tb.Header...)}
+	c := &Table{Name: tb.Name, Header: append([]string(nil), tb.Header...), Raw: tb.Raw}
 	for _, r := range tb.Rows {
 		c.Rows = append(c.Rows, append([]string(nil), r...))
 	}
@@ -59,6 +61,9 @@ func (f *Feed) Clone() *Feed {
 // CSV renders a table. Rows may have a different number of cells than the header (fault campaigns
 // do that on purpose); encoding/csv's writer does not care.
 func (tb *Table) CSV(crlf bool, bom bool) []byte {
+	if tb.Raw != nil {
+		return tb.Raw
+	}
 	var buf bytes.Buffer
 	if bom {
 		buf.Write([]byte{0xEF, 0xBB, 0xBF})
